@@ -205,7 +205,7 @@ def gen_functions(rng, n_each):
         # positive-real: impedance of a random R/L/C/G tree
         t = rand_tree(rng, rng.choice([1, 2, 2, 3]))
         n, d = tree_Z(t)
-        if n and len(n) <= 6 and len(d) <= 6:
+        if n and d and len(n) <= 6 and len(d) <= 6:
             add('pr-net', n, d)
     for _ in range(n_each):
         # exactly of a pattern's form: cm/s + c0 + c1 s and reciprocals
@@ -282,7 +282,7 @@ SYMBOLIC = [
 
 
 def gen_cases(rng, tier, only_forms=None):
-    n_each = 6 if tier == 'quick' else 40
+    n_each = 6 if tier == 'quick' else 60
     funcs = gen_functions(rng, n_each)
     cases = []
     modes = ['impedance', 'impedance', 'admittance', 'function']
@@ -310,12 +310,12 @@ def gen_cases(rng, tier, only_forms=None):
             if form.startswith('parallel') or form == 'RLC':
                 cases.append({'kind': 'network', 'tag': 'grid', 'N': Ds, 'D': Ns, 'form': form, 'mode': 'impedance'})
     # transform of random networks (positive and negative element values)
-    nt = 14 if tier == 'quick' else 100
+    nt = 14 if tier == 'quick' else 150
     tforms = ['cauerI', 'cauerII', 'fosterI', 'fosterII']
     for i in range(nt):
         t = rand_tree(rng, rng.choice([1, 2, 2, 3]), neg=(i % 4 == 3))
         n, d = tree_Z(t)
-        if not n or len(n) > 6 or len(d) > 6 or t[0] not in ('Ser', 'Par'):
+        if not n or not d or len(n) > 6 or len(d) > 6 or t[0] not in ('Ser', 'Par'):
             continue
         for form in (tforms if i % 3 == 0 else [tforms[i % 4]]) + (['RLC'] if i % 5 == 0 else []):
             if only_forms and form not in only_forms:
@@ -701,6 +701,11 @@ def run(tier='quick', replay=None):
                 idx_note[i] = note
                 if it is not None:
                     items.append(it)
+        n_valid = sum(1 for r in results if r.get('status') in ('net', 'none', 'error'))
+        if not replay and n_valid < 0.8 * len(cases):
+            res.failed_obl.append(('harness', 'tools/impl_synth.py', 'only %d of %d cases ran (worker crashes / time-outs): %s' % (
+                n_valid, len(cases), '; '.join(res.notes[:3]))))
+            res.obligations += 1
         corr_fail = {}
         if gen_ok and items:
             shards = [items[k:k + 150] for k in range(0, len(items), 150)]
